@@ -550,6 +550,9 @@ FramesClauses(T, prev, ev, post) ==
     IF ev.out # "ok" THEN {Tag("C20:animation-raised", ev.out)}
     ELSE   If(Len(ev.ks) # ev.n, {Tag("C20:frame-count", ev.n)})
       \cup If(Len(ev.ks) = ev.n /\ ev.ks # [i \in 1..ev.n |-> i], {Tag("C20:frame-order", ev.n)})
+      \* WHICH operations frame k shows: a digest of the first k operations of the harness' own dispatch record
+      \cup If("cs" \in DOMAIN ev /\ Len(ev.ks) = ev.n /\ Len(ev.want_cs) = ev.n /\ ev.cs # ev.want_cs,
+              {Tag("C20:frame-content", ev.n)})
       \cup If("axis_ends" \in DOMAIN ev /\ \E i \in DOMAIN ev.axis_ends : ev.axis_ends[i] # ev.final_makespan,
               {Tag("C20:frame-time-axis", ev.n)})
 
